@@ -21,7 +21,7 @@ def main(names):
                 return rc, o[-1500:]
             for f in (demo_sh, demo_py):
                 if os.path.exists(f):
-                    txt = open(f).read().replace('/tmp/wt_' + name.split('-')[0], WT).replace('/tmp/s2_' + name.split('-')[0], WT)
+                    txt = open(f).read().replace('/tmp/wt_' + name.split('-')[0], WT).replace('/tmp/s2_' + name.split('-')[0], WT).replace('/tmp/s3_' + name.split('-')[0], WT).replace('/tmp/s4_' + name.split('-')[0], WT)
                     tmp = os.path.join(WT, 'seed_demo' + os.path.splitext(f)[1]); open(tmp, 'w').write(txt)
                     rc, o = sh((['bash'] if f.endswith('.sh') else ['python3']) + [tmp, WT]); os.remove(tmp); return rc, o[-1500:]
             return None, 'no demo'
